@@ -122,3 +122,17 @@ Fixpoint key_wf_from (j : N) (key : pword) : bool :=
 Definition grouping_ok (op : qop) (groups : list (pword * qop)) : bool :=
   forallb (fun g => key_wf_from 0 (fst g) && forallb (fun tc => sub_term (fst tc) (fst g)) (snd g)) groups
   && dict_eqb pfactor pfeqb (concat (map snd groups)) op.
+
+(* _asynchronous_iter: K lists; every output is a K-tuple (None = padding); every pair of items from
+   two different lists must occur together in some output *)
+Definition memn (x : nat) (l : list nat) : bool := existsb (Nat.eqb x) l.
+Definition async_ok (lists : list (list nat)) (outs : list (list nat)) : bool :=
+  let K := length lists in
+  forallb (fun ab =>
+     forallb (fun x => forallb (fun y => existsb (fun o => memn x o && memn y o) outs) (snd (snd ab))) (snd (fst ab)))
+    (flat_map (fun a => map (fun b => (a, b)) (filter (fun b => Nat.ltb (fst a) (fst b)) (combine (seq 0 K) lists)))
+              (combine (seq 0 K) lists)).
+(* _get_padding(num_bins, bin_size): smallest L >= bin_size with no divisor in [2, num_bins - 2] *)
+Definition padding_ok (num_bins bin_size L : nat) : bool :=
+  let good := fun t => forallb (fun d => negb (Nat.eqb (Nat.modulo t d) 0)) (seq 2 (num_bins - 3)) in
+  Nat.leb bin_size L && good L && forallb (fun t => negb (good t)) (seq bin_size (L - bin_size)).
